@@ -13,6 +13,7 @@ import (
 	"encoding/json"
 	"fmt"
 	"math"
+	"math/big"
 	"math/rand"
 	"os"
 
@@ -33,6 +34,13 @@ type dcase struct {
 	A  val    `json:"a"`
 }
 
+// scase is a text -> number case of the harness-supplied domain.
+type scase struct {
+	Op string `json:"op"`
+	S  []int  `json:"s"`
+	A  val    `json:"a"`
+}
+
 var undef = val{T: "undef"}
 
 func nv(f float64) val { n := num.Of(f); return val{T: "num", N: &n} }
@@ -45,13 +53,15 @@ type budget struct {
 	sweepX                 int // doubles that get every digit argument
 	radixInts, radixPerInt int
 	ties                   int
+	txtCheap, txtExtreme   int // random literal strings
+	txtTies                int
 }
 
 func budgetOf(c *core.Ctx) budget {
 	if c.Thorough() {
-		return budget{strCheap: 6000, strExtreme: 2500, fmtCheap: 3000, fmtExtreme: 700, argsPerX: 6, sweepX: 120, radixInts: 500, radixPerInt: 8, ties: 400}
+		return budget{strCheap: 6000, strExtreme: 2500, fmtCheap: 3000, fmtExtreme: 700, argsPerX: 6, sweepX: 120, radixInts: 500, radixPerInt: 8, ties: 400, txtCheap: 12000, txtExtreme: 2500, txtTies: 600}
 	}
-	return budget{strCheap: 900, strExtreme: 260, fmtCheap: 420, fmtExtreme: 60, argsPerX: 3, sweepX: 14, radixInts: 90, radixPerInt: 4, ties: 60}
+	return budget{strCheap: 900, strExtreme: 260, fmtCheap: 420, fmtExtreme: 60, argsPerX: 3, sweepX: 14, radixInts: 90, radixPerInt: 4, ties: 60, txtCheap: 1200, txtExtreme: 250, txtTies: 60}
 }
 
 func ulps(f float64, k int) float64 {
@@ -91,6 +101,150 @@ func (d *dom) add(op string, x float64, a val) {
 	d.lines.WriteByte('\n')
 	d.n++
 	d.byOp[op]++
+}
+
+func (d *dom) addText(op, text string, a val) {
+	u := make([]int, 0, len(text))
+	for _, r := range text { // ASCII only
+		u = append(u, int(r))
+	}
+	b, _ := json.Marshal(scase{Op: op, S: u, A: a})
+	if d.seen[string(b)] {
+		return
+	}
+	d.seen[string(b)] = true
+	d.lines.Write(b)
+	d.lines.WriteByte('\n')
+	d.n++
+	d.byOp[op]++
+}
+
+// allText hands one string to every text -> number operation it suits.
+func (d *dom) allText(text string) {
+	d.addText("Number", text, undef)
+	d.addText("parseFloat", text, undef)
+	d.addText("parseInt", text, undef)
+	if d.rng.Intn(4) == 0 {
+		d.addText("plus", text, undef)
+		d.addText("parseInt", text, nv(float64([]int{10, 16, 8, 2, 36}[d.rng.Intn(5)])))
+	}
+	if len(text) > 0 && (text[0] == '.' || (text[0] >= '0' && text[0] <= '9')) {
+		d.addText("lit", text, undef)
+	}
+}
+
+func (d *dom) digits(n int) string {
+	b := make([]byte, n)
+	for i := range b {
+		b[i] = byte('0' + d.rng.Intn(10))
+	}
+	return string(b)
+}
+
+// decimalLiteral: a random StrDecimalLiteral with at most 17 mantissa digits
+// (ES5 fixes the rounding only up to 20 significant digits).
+func (d *dom) decimalLiteral(extreme bool) string {
+	sig := 1 + d.rng.Intn(17)
+	ds := d.digits(sig)
+	var m string
+	switch d.rng.Intn(4) {
+	case 0:
+		m = ds
+	case 1:
+		k := d.rng.Intn(sig + 1)
+		m = ds[:k] + "." + ds[k:]
+	case 2:
+		m = "." + ds
+	default:
+		m = ds + "."
+	}
+	if m == "." {
+		m = "0."
+	}
+	if d.rng.Intn(3) > 0 {
+		e := d.rng.Intn(41) - 20
+		if extreme {
+			e = d.rng.Intn(700) - 360
+		}
+		es := fmt.Sprintf("%d", e)
+		if e >= 0 && d.rng.Intn(2) == 0 {
+			es = "+" + es
+		}
+		m += string("eE"[d.rng.Intn(2)]) + es
+	}
+	switch d.rng.Intn(6) {
+	case 0:
+		m = "-" + m
+	case 1:
+		m = "+" + m
+	}
+	return m
+}
+
+func (d *dom) mutate(s string) string {
+	const pool = "0123456789..eeEE++--xX_ aIfnity"
+	c := string(pool[d.rng.Intn(len(pool))])
+	if len(s) == 0 {
+		return c
+	}
+	i := d.rng.Intn(len(s) + 1)
+	switch d.rng.Intn(3) {
+	case 0:
+		return s[:i] + c + s[i:]
+	case 1:
+		if i == len(s) {
+			i--
+		}
+		return s[:i] + s[i+1:]
+	default:
+		if i == len(s) {
+			i--
+		}
+		return s[:i] + c + s[i+1:]
+	}
+}
+
+// texts adds the random text -> number cases: literals from the grammar,
+// exact decimal ties between adjacent doubles, and one-character mutations.
+func (d *dom) texts(cheapN, extremeN, tieN int) {
+	for i := 0; i < cheapN; i++ {
+		s := d.decimalLiteral(false)
+		d.allText(s)
+		if i%2 == 0 {
+			d.allText(d.mutate(s))
+		}
+		if i%5 == 0 {
+			d.allText(" " + s + " ")
+		}
+	}
+	for i := 0; i < extremeN; i++ {
+		s := d.decimalLiteral(true)
+		d.allText(s)
+		if i%4 == 0 {
+			d.allText(d.mutate(s))
+		}
+	}
+	// integers m * 2^j with m an odd 54-bit number lie exactly half way between two doubles
+	for i := 0; i < tieN; i++ {
+		m := new(big.Int).SetUint64(1<<53 | uint64(d.rng.Int63n(1<<53)) | 1)
+		m.Lsh(m, uint(d.rng.Intn(13)))
+		for _, delta := range []int64{0, 1, -1} {
+			v := new(big.Int).Add(m, big.NewInt(delta))
+			if len(v.String()) > 20 {
+				continue
+			}
+			d.allText(v.String())
+			d.addText("parseInt", v.String(), nv(10))
+			d.addText("pistr", v.String(), undef)
+			d.addText("Number", "0x"+v.Text(16), undef)
+			d.addText("lit", "0x"+v.Text(16), undef)
+			d.addText("parseInt", v.Text(16), nv(16))
+			d.addText("parseInt", v.Text(2), nv(2))
+			d.addText("parseInt", "-"+v.Text(8), nv(8))
+			d.addText("parseInt", v.Text(32), nv(32))
+			d.addText("parseInt", v.Text(4), nv(4))
+		}
+	}
 }
 
 func (d *dom) sign(f float64) float64 {
@@ -305,6 +459,9 @@ func Domain(c *core.Ctx) ([]byte, map[string]int, int) {
 			d.add("toString", x, nv(float64(2+d.rng.Intn(35))))
 		}
 	}
+
+	// ---- text -> number on random strings longer than TLC enumerates
+	d.texts(b.txtCheap, b.txtExtreme, b.txtTies)
 	return d.lines.Bytes(), d.byOp, d.n
 }
 
@@ -327,7 +484,7 @@ var Spec = &gen.Spec{
 		return []gen.RunCfg{
 			{Name: fmt.Sprintf("text->number: all strings of <= %d tokens, literal texts of <= %d characters, hand-chosen strings x radixes", maxLen, litLen),
 				Cfg: cfg(c, "text", maxLen, litLen), Opts: tlc.Opts{Files: map[string][]byte{"dom.ndjson": placeholder}}},
-			{Name: fmt.Sprintf("number->text: %d harness-chosen (operation, double, argument) cases", n),
+			{Name: fmt.Sprintf("harness-chosen domain: %d cases (number->text on seeded doubles with arguments; text->number on random literals, ties, mutations)", n),
 				Cfg: cfg(c, "dom", maxLen, litLen), Opts: tlc.Opts{Files: map[string][]byte{"dom.ndjson": domBytes}}},
 		}
 	},
